@@ -158,7 +158,11 @@ class Op:
         self.name = args[0].decode("latin1").lower() if args else ""
 
     def text(self):
-        return " ".join(a.decode("latin1") for a in self.args) + " -> " + self.reply
+        def short(a):
+            t = a.decode("latin1")
+            return t if len(t) <= 64 else "%s...(%d bytes)" % (t[:16], len(t))
+        rep = self.reply if len(self.reply) <= 200 else "%s...(%d chars)" % (self.reply[:40], len(self.reply))
+        return " ".join(short(a) for a in self.args) + " -> " + rep
 
     def ident(self):
         return "t%d.%d" % (self.thread, self.seq)
